@@ -262,6 +262,28 @@ func c10Stress(args []string) int {
 			}
 		})
 	}
+	silent, _ := sys.ActorOf(vivid.ActorFN(func(ctx vivid.ActorContext) {}), vivid.WithActorName("silent"))
+	for i := 9; i < 11; i++ { // several goroutines complete one future at the same instant (Future methods are documented as concurrent)
+		worker(i, func(rng *rand.Rand) {
+			atomic.AddInt64(&ops, 1)
+			f := sys.Ask(silent, c10Ping{N: 9}, time.Duration(1+rng.Intn(3))*time.Millisecond)
+			var gate, ready sync.WaitGroup
+			gate.Add(1)
+			for k := 0; k < 3; k++ {
+				ready.Add(1)
+				go func(k int) {
+					defer ready.Done()
+					gate.Wait()
+					f.Close(fmt.Errorf("closer %d", k))
+				}(k)
+			}
+			gate.Done()
+			ready.Wait()
+			if r, err := f.Result(); r != nil && err != nil {
+				fmt.Println("STRESS-INCONSISTENT-RESULT message and error together")
+			}
+		})
+	}
 	for i := 7; i < 9; i++ { // event stream from outside
 		worker(i, func(rng *rand.Rand) {
 			atomic.AddInt64(&ops, 1)
@@ -349,7 +371,20 @@ func harnessCrash(stderr string) bool {
 	if j := strings.Index(stack, "\n\n"); j > 0 {
 		stack = stack[:j]
 	}
-	return strings.Contains(stack, ".Verif") || strings.Contains(stack, "verifharness/checks.c10Stress")
+	// the innermost frame that is neither the Go runtime nor the standard library decides: a library function that
+	// panics is the library's fault even when a harness goroutine called it (the API is documented as concurrent)
+	for _, line := range strings.Split(stack, "\n")[1:] {
+		if strings.HasPrefix(line, "\t") || line == "" {
+			continue
+		}
+		fn := strings.TrimSpace(line)
+		if strings.HasPrefix(fn, "runtime.") || strings.HasPrefix(fn, "runtime/") || strings.HasPrefix(fn, "internal/") || strings.HasPrefix(fn, "sync.") ||
+			strings.HasPrefix(fn, "sync/") || strings.HasPrefix(fn, "panic(") || strings.HasPrefix(fn, "created by") || strings.HasPrefix(fn, "reflect.") {
+			continue
+		}
+		return strings.Contains(fn, "verifharness") || strings.Contains(fn, ".Verif")
+	}
+	return false
 }
 
 // parseRaces extracts, for each race report, the first library frame of both accesses.
@@ -395,6 +430,7 @@ func runStress(c *core.Ctx, bin string, dur time.Duration, seed int64) (events [
 	var stdout, stderr bytes.Buffer
 	cmd.Stdout, cmd.Stderr = &stdout, &stderr
 	err := cmd.Run()
+	anomaly := false
 	for _, line := range strings.Split(stdout.String(), "\n") {
 		if strings.HasPrefix(line, "EV ") {
 			var e map[string]any
@@ -404,6 +440,10 @@ func runStress(c *core.Ctx, bin string, dur time.Duration, seed int64) (events [
 		}
 		if strings.HasPrefix(line, "STRESS-OPS") {
 			detail = line
+		}
+		if strings.HasPrefix(line, "STRESS-INCONSISTENT-RESULT") && !anomaly {
+			anomaly = true
+			events = append(events, map[string]any{"e": "Anomaly", "s": strings.TrimPrefix(line, "STRESS-INCONSISTENT-RESULT ")})
 		}
 	}
 	se := stderr.String()
